@@ -308,6 +308,35 @@ func compareFields(out *Out, where string, pred, real []cElem) {
 	}
 }
 
+// compareValues: enum values are matched by (enum, name), falling back to (enum, number), so that a numbering fault is
+// reported as enum-value-number and a prefix fault as enum-value-name.
+func compareValues(out *Out, where string, pred, real []cElem) {
+	byName := indexBy(real, "enum", "name")
+	byNum := indexBy(real, "enum", "number")
+	used := map[string]bool{}
+	for _, p := range pred {
+		r, ok := byName[str(p, "enum")+"|"+str(p, "name")]
+		if !ok {
+			r, ok = byNum[str(p, "enum")+"|"+str(p, "number")]
+			if !ok {
+				out.V("C02|enum-value-missing|"+where, "declared enum value %s.%s = %s is not in the compiled output", str(p, "enum"), str(p, "name"), str(p, "number"))
+				continue
+			}
+		}
+		used[str(r, "enum")+"|"+str(r, "name")] = true
+		for _, a := range []string{"name", "number"} {
+			if str(p, a) != str(r, a) {
+				out.V(fmt.Sprintf("C02|enum-value-%s|%s", a, where), "enum value %s.%s: %s must be %q, compiled output has %q", str(p, "enum"), str(p, "name"), a, str(p, a), str(r, a))
+			}
+		}
+	}
+	for _, k := range sortedKeys(byName) {
+		if !used[k] {
+			out.V("C02|enum-value-extra|"+where, "compiled output has enum value %s which the source does not declare", k)
+		}
+	}
+}
+
 // compareContract evaluates C02 on a compiled bundle: pred is the model's Contract, real the projection.
 func compareContract(out *Out, where string, pred, real *contract) {
 	// file name and package of the main file are documented (README "Packages and Imports"); the file name of the
@@ -323,7 +352,7 @@ func compareContract(out *Out, where string, pred, real *contract) {
 	compareKind(out, where, "message", pred.Msgs, real.Msgs, []string{"full"}, []attrSpec{{"parent", false}, {"kind", false}, {"file", true}}, false)
 	compareFields(out, where, pred.Fields, real.Fields)
 	compareKind(out, where, "enum", pred.Enums, real.Enums, []string{"full"}, []attrSpec{{"parent", false}, {"file", true}}, false)
-	compareKind(out, where, "enum-value", pred.Values, real.Values, []string{"enum", "number"}, []attrSpec{{"name", false}}, false)
+	compareValues(out, where, pred.Values, real.Values)
 	// services: the sub-package (part of the full name) and role are demanded; the service's own name and the topic
 	// name are documented in the README but not listed by the statement, so they are matched by position and drift-only
 	compareServices(out, where, pred, real)
